@@ -126,10 +126,11 @@ Print Assumptions cellunion_region_predicates_safe.
    - FastCovering's own level limits ("all of the usual parameters are respected") outside the
      refuted branch: checked by the observer only. *)
 
-(** The hypotheses are satisfiable: the region consisting of face cell 0 (all its leaves), with exact
-    predicates computed from id ranges, the face as its own bound and an identity fallback. *)
+(** The hypotheses are jointly satisfiable: the region consisting of face cell 0 (all its leaves) with
+    the id-range predicates of s2.Cell, the face as its own bound and an identity fallback. *)
 Example hypotheses_satisfiable :
   let face0 := s2_CellIDFromFace 0 in
   let pts := fun x => leaf_in x face0 in
-  ValidB [face0] /\ FallbackOK (fun l => Some l) /\ SoundB [face0] pts.
-Proof. exact hyps_example. Qed.
+  ValidB [face0] /\ FallbackOK (fun l => Some l) /\ SoundB [face0] pts /\
+  SoundI (s2_CellID_Intersects face0) pts /\ SoundC (s2_CellID_Contains face0) pts.
+Proof. exact hyps_example_full. Qed.
